@@ -12,7 +12,7 @@ import time
 import common as C
 import relenc
 
-FILES = ["spec/DPPipeline.tla", "spec/MC_DPPipeline.tla", "spec/Trace_DP.tla", "lib/dpengine.py", "lib/common.py", "lib/relenc.py"]
+FILES = ["spec/DPPipeline.tla", "spec/MC_DPPipeline.tla", "spec/MC_DPMulti.tla", "spec/Trace_DP.tla", "lib/dpengine.py", "lib/common.py", "lib/relenc.py"]
 NULL = -9999
 MAXROWS = 4
 AGG_SQL = {"count": "COUNT(v)", "sum": "SUM(v)", "avg": "AVG(v)", "var": "VARIANCE(v)", "std": "STDDEV(v)",
@@ -64,6 +64,41 @@ def nm(eps, delta):
     return math.sqrt(2.0 * math.log(1.25 / delta)) / eps
 
 
+def min_epsilon(ratios, delta):
+    """The least total epsilon with which Gaussian mechanisms of noise multipliers `ratios` (sigma / sensitivity) compose
+    within a total `delta` (classical calibration eps_i = sqrt(2 ln(1.25/delta_i)) / ratio_i, basic composition), over every
+    way of sharing delta among them: the statement is existential, the compiler need not share delta evenly."""
+    if delta <= 0:
+        return math.inf
+    n = len(ratios)
+
+    def eps(d, r):
+        return math.sqrt(2.0 * math.log(1.25 / d)) / r
+    if n == 1:
+        return eps(delta, ratios[0])
+
+    def d_of(lam, r):
+        # solve 1 / (r d sqrt(2 ln(1.25/d))) = lam for d in (0, delta): the left side decreases in d there
+        lo, hi = 1e-200, min(delta, 0.5)
+        for _ in range(200):
+            mid = math.exp(0.5 * (math.log(lo) + math.log(hi)))
+            if 1.0 / (r * mid * math.sqrt(2.0 * math.log(1.25 / mid))) > lam:
+                lo = mid
+            else:
+                hi = mid
+        return hi
+    lo, hi = 1e-12, 1e250
+    for _ in range(400):
+        lam = math.exp(0.5 * (math.log(lo) + math.log(hi)))
+        if sum(d_of(lam, r) for r in ratios) > delta:
+            lo = lam
+        else:
+            hi = lam
+    ds = [d_of(hi, r) for r in ratios]
+    even = sum(eps(delta / n, r) for r in ratios)
+    return min(even, sum(eps(d, r) for d, r in zip(ds, ratios)))
+
+
 def cell(v):
     return None if v == NULL else v
 
@@ -72,7 +107,8 @@ def case_of(p, i):
     cfg, db = p["cfg"], p["db"]
     ktype = {"k": "int", "ivs": [[0, 0], [1, 1]]} if cfg["keys"] == "public" else {"k": "int", "ivs": [[0, 9]]}
     tables = [{"name": "orders", "size_ivs": [[0, MAXROWS]], "rows": [], "cols": [
-        {"n": "user_id", "t": {"k": "int", "ivs": [[0, 2]]}, "c": None},
+        # the privacy-unit column sometimes carries a (non-unique) foreign-key constraint: only UNIQUE / PRIMARY KEY make a unit single-row
+        {"n": "user_id", "t": {"k": "int", "ivs": [[0, 2]]}, "c": "fk" if i % 4 == 1 else None},
         {"n": "k", "t": ktype, "c": None},
         {"n": "v", "t": {"k": "opt", "t": {"k": "int", "ivs": [[-2 if cfg.get("signed") else 0, 2]]}}, "c": None}]}]
     sql = "SELECT " + ("k, " if cfg["grouped"] else "") + AGG_SQL[cfg["agg"]] + " AS x FROM orders" + \
@@ -112,6 +148,33 @@ def explore(tier):
         cases.append(case_of(p, len(cases)))
     return cases, {"mode": "simulate", "num": num, "states_generated": states, "distinct_cases": len(cases), "cmd": r.cmd,
                    "model_invariants": ["Sensitivity", "Locality", "ReleasedOverTau", "SingletonNotReleased", "CappedContribution"]}
+
+
+MULTI_SQL = {"count_v": "COUNT(v) AS c_v", "sum_v": "SUM(v) AS s_v", "count_k": "COUNT(k) AS c_k", "count_distinct_v": "COUNT(DISTINCT v) AS cd_v",
+             "sum_distinct_v": "SUM(DISTINCT v) AS sd_v", "count_distinct_k": "COUNT(DISTINCT k) AS cd_k"}
+
+
+def multi_cases(first_id):
+    """spec/MC_DPMulti.tla: SELECT lists of two or three aggregates (plain and DISTINCT, over v and over the grouping key k),
+    ungrouped / grouped by public / private keys.  Compiled only for the accounting judges of C03 (one small database)."""
+    r = C.tlc("MC_DPMulti", "MC_DPMulti.cfg", "dp_multi", workers=2, timeout=600)
+    C.require_model_ok(r, "MC_DPMulti.tla")
+    rows = [[0, 0, 1], [1, 0, 2], [1, 1, 1], [2, 1, None]]
+    out = []
+    for p in r.json_payloads("REPLAY"):
+        i = first_id + len(out)
+        grouped = p["shape"] != "ungrouped"
+        cfg = {"grouped": grouped, "keys": p["shape"] if grouped else "public", "agg": "count", "where": False, "cu": 2, "mult": 2, "signed": False,
+               "multi": sorted(p["aggs"]), "splits": p["splits"]}
+        ktype = {"k": "int", "ivs": [[0, 0], [1, 1]]} if cfg["keys"] == "public" else {"k": "int", "ivs": [[0, 9]]}
+        tables = [{"name": "orders", "size_ivs": [[0, MAXROWS]], "rows": [], "cols": [
+            {"n": "user_id", "t": {"k": "int", "ivs": [[0, 2]]}, "c": None}, {"n": "k", "t": ktype, "c": None},
+            {"n": "v", "t": {"k": "opt", "t": {"k": "int", "ivs": [[0, 2]]}}, "c": None}]}]
+        sql = "SELECT " + ("k, " if grouped else "") + ", ".join(MULTI_SQL[a] for a in cfg["multi"]) + " FROM orders" + (" GROUP BY k" if grouped else "")
+        params = {"epsilon": [1.0, 4.0][i % 2], "delta": 1e-3, "tau_share": [0.5, 0.8, 0.25][i % 3], "max_mult": 2.0, "max_mult_share": 1.0, "max_groups": 2}
+        out.append({"id": i, "mode": "dp", "hash_pu": bool(i % 3), "pu": [["orders", [], "user_id"]], "sql": sql, "params": params, "tables": tables,
+                    "dbs": [{"orders": rows}], "randoms": [{"noise": 1.0, "cap_seed": C.seed() + i}], "cfg": cfg, "units": [0, 1, 2], "model": p})
+    return out, r
 
 
 def run_harness(cases, name):
@@ -285,11 +348,10 @@ def facts(case, o):
         del_used = sum(e["delta"] for e in taus_ev)
         ratios = [s / effective(c, clip[c]) for _, c, s in agg_mechs if s > 0 and clip.get(c, 0.0) > 0]
         if ratios:
-            d_each = (del_tot - del_used) / len(ratios)
-            if d_each <= 0:
+            if del_tot - del_used <= 0:
                 rec["budget_ok"] = False
             else:
-                eps_used += sum(math.sqrt(2 * math.log(1.25 / d_each)) / r for r in ratios)
+                eps_used += min_epsilon(ratios, del_tot - del_used)
         rec["budget_ok"] = rec["budget_ok"] and eps_used <= eps_tot * (1 + 1e-9) and del_used <= del_tot * (1 + 1e-9)
         info["budget"] = {"eps_total": eps_tot, "eps_needed": eps_used, "delta_total": del_tot}
     # tau in the IR is at least the tau the reserved share requires (recomputed independently)
@@ -336,7 +398,7 @@ def facts(case, o):
                                     "single": units_holding <= 1, "noise_pos": noise_g > 0})
     # ---- C09: exact when noise and clipping are inactive
     model = case["model"]
-    if base and "final" in base and not model["active"] and (cfg["keys"] == "public" or not cfg["grouped"]):
+    if base and "final" in base and not model.get("active", True) and (cfg["keys"] == "public" or not cfg["grouped"]):
         f = base["final"]
         fin = {}
         for r in f["rows"]:
@@ -388,6 +450,8 @@ def key_of(judge, case):
         return f"Exact/{cfg['agg']}"
     if judge in ("Sensitivity", "SameBound"):
         return f"{judge}/{cfg['agg']}/{shape}"
+    if "multi" in cfg:
+        return f"{judge}/{shape}/list:{'+'.join(cfg['multi'])}"
     return f"{judge}/{shape}"
 
 
@@ -403,10 +467,16 @@ def run(tier):
         return res
     t0 = time.time()
     cases, info = explore(tier)
+    multi, rm = multi_cases(len(cases))
+    info["multi_aggregate_lists"] = len(multi)
+    cases = cases + multi
     obs, wd = run_harness(cases, "dp")
     recs, infos = [], []
     for c, o in zip(cases, obs):
         r, i = facts(c, o)
+        if "multi" in c["cfg"]:
+            # these lists are compiled for the accounting judges only: nothing else is claimed about them
+            r.update({"sens": [], "keys": [], "unit_groups": [], "exact": []})
         recs.append(r)
         infos.append(i)
     tp = os.path.join(wd, "trace.ndjson")
